@@ -500,8 +500,13 @@ def check_clock(ctx, num=7):
         fb = [n for n in defs if norm.U(n.value) == "self.waiting_ticks_mean"]
         okfb = len(fb) == 1 and norm.entails(g.facts_at(fb[0]), ("cmp", "<=", wv, "0"))
         # after the fallback the value is positive unless the mean itself is 0
-        okw = len(draw) == 1 and okfb and len(defs) == 2 and g.dominates(c, draw[0])
-        d = f"draw: {[stmt_text(n) for n in draw]}; fallback under `{wv} <= 0`: {okfb}; pipelines generated before the gap draw (fixed draw order): {g.dominates(c, draw[0]) if draw else None}"
+        from . import sched as _sched
+        reach = _sched.reaching_defs(f, g, waits[0], wv)
+        guarded_store = len(fb) == 1 and any(r is fb[0] for r in reach) and all(r in draw + fb for r in reach) and \
+            not norm.entails(g.facts_at(waits[0]), ("cmp", "<=", wv, "0")) and g.holds_at(waits[0], norm._mk("or", [("cmp", "<", "0", wv), norm.mk_cmp("==", wv, "self.waiting_ticks_mean")]))
+        okw = len(draw) == 1 and okfb and len(defs) == 2 and g.dominates(c, draw[0]) and guarded_store
+        d = (f"draw: {[stmt_text(n) for n in draw]}; fallback under `{wv} <= 0`: {okfb}; the value stored has passed the fallback (positive, or the mean): {guarded_store}; "
+             f"pipelines generated before the gap draw (fixed draw order): {g.dominates(c, draw[0]) if draw else None}")
     ctx.ob(num, "K7", "the next gap is int(normal(mean, mean/4)) ticks, replaced by the mean when the sample is not positive", okw, f, waits[0] if waits else f.node,
            construct="next waiting time", detail=d)
     rets = [r for r in own_nodes(f.node) if isinstance(r, ast.Return)]
